@@ -1,5 +1,4 @@
-\* flush / close of ONE Elasticsearch store under every outcome of the _bulk requests (two chunks, one retry), re-open after a failed close;
-\* repaired variant (records carry a client-generated _id): every invariant holds
+\* self-test: the same with the code as it is (documents without _id): a retried or re-sent batch stores accepted records twice -> InvAtMostOnce is violated
 SPECIFICATION Spec
 CONSTANTS
   TypeOf <- TEsEs
@@ -23,8 +22,8 @@ CONSTANTS
   MaxOpens = 2
   ExplicitRel = 5
   ExplicitAbs = 7
-  IdempotentIds = TRUE
-  DocMetaAlways = TRUE
+  IdempotentIds = FALSE
+  DocMetaAlways = FALSE
 VIEW view
 INVARIANT TypeOK
 INVARIANT InvNoLoss
